@@ -84,10 +84,61 @@ pub fn pieces(spec: &RespSpec, nsegs: usize, max_buf: usize) -> usize {
     }
 }
 
+/// Big chunks read with big buffers whose ends fall exactly on chunk ends (seed C01-seed8: a read that takes
+/// exactly the rest of a chunk, straight from a transport that has it all): chunk sizes around multiples of
+/// the client's chunk buffer, read sizes that divide them, the whole response in one segment or in segments
+/// of the read size. Deterministic: an alignment like this is never met by chance.
+fn aligned_big_reads(rng: &mut Rng, thorough: bool, sink: &mut Sink) {
+    let mb = crate::resp::max_buffer_len();
+    let chunk_sizes: Vec<usize> = if thorough { vec![mb, 2 * mb, 2 * mb + 1, 3 * mb, 4 * mb, 2 * mb - 1] } else { vec![2 * mb, 2 * mb + 1, 3 * mb] };
+    let read_sizes: Vec<usize> = if thorough { vec![mb, mb + 1, 2 * mb, mb / 2, 3 * mb] } else { vec![mb, mb + 1, 2 * mb] };
+    for &cs in &chunk_sizes {
+        for &rs in &read_sizes {
+            for seg_mode in 0..2 {
+                let chunks = vec![
+                    Chunk { data: payload_bytes(rng, cs), size_repr: format!("{:x}", cs).into_bytes(), ext: vec![] },
+                    Chunk { data: payload_bytes(rng, 5), size_repr: b"5".to_vec(), ext: vec![] },
+                ];
+                let spec = RespSpec {
+                    version: b"HTTP/1.1".to_vec(),
+                    status: 200,
+                    reason: b"OK".to_vec(),
+                    fields: vec![],
+                    te_name: b"Transfer-Encoding".to_vec(),
+                    te_value: b"chunked".to_vec(),
+                    body: BodySpec::Chunked { chunks, last_repr: b"0".to_vec(), last_ext: vec![], trailers: vec![] },
+                    trail: vec![],
+                };
+                let wire = spec.wire();
+                let segs: Vec<crate::script::Seg> = if seg_mode == 0 {
+                    vec![crate::script::Seg::Data(wire.clone())]
+                } else {
+                    // the head and the size line first, then the body in pieces of the read size
+                    let head_len = spec.head_bytes().len() + format!("{:x}\r\n", cs).len();
+                    let mut v = vec![crate::script::Seg::Data(wire[..head_len].to_vec())];
+                    v.extend(wire[head_len..].chunks(rs).map(|c| crate::script::Seg::Data(c.to_vec())));
+                    v
+                };
+                let ns = vec![rs; (cs + 5) / rs.min(mb) + 6];
+                let case = RespCase { method: "GET".into(), max_headers: 100, segs, reads: Reads::Sizes(ns) };
+                let out = run_resp(&case);
+                let o = oracle(&spec, &case, &out);
+                sink.push(Case {
+                    tags: vec!["framing=chunked".into(), format!("seg={}", if seg_mode == 0 { "one" } else { "read-sized" }), "reads=aligned-big".into(), "payload>64K".into()],
+                    op: case.op_line(),
+                    impl_line: out.line(),
+                    oracle: o,
+                });
+            }
+        }
+    }
+}
+
 pub fn generate(seed: u64, tier: &str, sink: &mut Sink) {
     let mut rng = Rng::new(seed ^ 0xC01);
     let n = if tier == "thorough" { 60_000 } else { 2500 };
     let max_buf = crate::resp::max_buffer_len();
+    aligned_big_reads(&mut rng, tier == "thorough", sink);
     for i in 0..n {
         let framing = i % 3;
         // big payloads are expensive in hex; keep them to a share of the cases
